@@ -2174,7 +2174,7 @@ fn families() -> Vec<Family> {
         Family { name: "smart_ptr/deserialize", quick: 400, thorough: 24000, ops: 48, slow: false, prepare: prep_smart_ptr },
         Family { name: "hex/decode", quick: 200, thorough: 12000, ops: 32, slow: false, prepare: prep_hex },
         Family { name: "base64/decode", quick: 200, thorough: 12000, ops: 32, slow: false, prepare: prep_base64 },
-        Family { name: "reorder_map/open", quick: 120, thorough: 7200, ops: 40, slow: false, prepare: prep_reorder_map },
+        Family { name: "reorder_map/open", quick: 900, thorough: 54_000, ops: 40, slow: false, prepare: prep_reorder_map },
         Family { name: "zip_offset/load", quick: 100, thorough: 6000, ops: 40, slow: false, prepare: prep_zip_offset },
         Family { name: "mmap_vec/open", quick: 80, thorough: 4800, ops: 40, slow: false, prepare: prep_mmap_vec },
     ]
